@@ -81,6 +81,11 @@ import (
 // every call asks the entity for the manager at the moment it is made; stream goroutines are attributed to entity [1]
 // unless they belong to the second entity's manager (not: only if they belong to the object fetched at the setup).
 
+// Wave 7: (a) the peer that subscribes later is, in every second case, a clone of the observed peer as far as addresses go
+// (same device address, same numbering, other SKI) and learns from the result datagram - not from the registry's list -
+// that it is subscribed; (b) judgeCompletionOrder: the notifies of one entity on one connection in order of COMPLETION of
+// their writes (a restart while a refresh is held in the writer must not let the new stream overtake it).
+//
 // 150ms and 1.25s are not multiples of the 0.1s resolution of the announced xs:duration: the announced timeout
 // (PT0.1S, PT1.2S) is then shorter than the configured Go value, and the period is judged against the announced one
 // exactly 2s is the last timeout whose period is not shortened (period 2s), 2.1s the first one that is (period 0.1s)
@@ -99,7 +104,8 @@ func init() {
 			"subscribed to the DeviceDiagnosis feature before the observed peer; " +
 			"in two of three cases of seq and conc a second entity ([2] or nested [1,1]) runs its own heartbeat (timeout 0.1, 0.2 or 2.1 s), started before or after that of entity [1] and never stopped: after every checkpoint of entity [1] it must still be running and refreshing (for [1,1] only until RemoveEntity([1])); " +
 			"in every generated history of seq with a timeout of 100-300 ms (thorough: also 1 s and 1.25 s) the call-free run of 8 refreshes is followed by a second one during which the observed subscriber's connection takes 40, 50 or 60 % of the announced timeout for every heartbeat notification (less than the period), judged by the effective-gap oracle with the bound announced timeout + half of that time; " +
-			"in every second generated history of seq a second healthy peer subscribes while the heartbeat runs and must receive every refresh built after its subscription returned; " +
+			"in every second generated history of seq a second healthy peer subscribes while the heartbeat runs and must receive every refresh built after its subscription returned (accepted = the result datagram that answers its request carries error number 0); in every second of these cases that peer announces the SAME device address as the observed peer (same entity and feature numbering anyway): two subscribers whose client feature addresses are identical and that differ in the SKI of their connection only; " +
+			"every sequence of heartbeat notifies of one entity on one connection is judged in the order of entry into the writer AND in the order in which the writes were complete (slowtap restarts the heartbeat while a refresh is held inside the writer for 2.5 periods); " +
 			"conc: 4-8 goroutines with 3-6 Start/Stop/IsRunning calls each - in case index%4 = 1|3 the AddFunctionType that creates and starts the heartbeat is one of these calls (the others begin with StartHeartbeat), in 2|3 one or two RemoveEntity calls are among them -, cyclic rendezvous of two or jitter at Heartbeat.stop.afterCheck and Heartbeat.start.afterStop, then a final sequential call that makes the expectation exact, " +
 			"then (periods <= 300 ms) 2-8 trials of Stop, Start and restarting Start, and finally (all periods) RemoveEntity, each called while 4-8 other goroutines query IsHeartbeatRunning in a tight loop (bounded; they have ended before the checkpoint judges: after Stop/RemoveEntity no live stream and no refresh beyond the one in flight, after Start exactly one stream; a query that returned before the call began must report the state the preceding checkpoint established, one that began after the call returned the state the call produces - ordered through an atomic phase flag -, queries overlapping the call are only counted); " +
 			"firstuse (plain and -race): the FIRST heartbeat calls an entity ever sees come from 2-4 goroutines at once, for 40 (thorough 80; -race 16/32) fresh entities per case, timeouts 0.1, 0.15 and 2.1 s: exactly one goroutine calls AddFunctionType(heartbeat), each of the others one of IsHeartbeatRunning / StopHeartbeat / StartHeartbeat (through entity.HeartbeatManager() at the moment of the call) / RemoveEntity; nothing asks the entity for its heartbeat manager before. " +
@@ -113,6 +119,8 @@ func init() {
 			"'with a period not exceeding the announced timeout' holds whatever the subscribers' connections cost, as long as a notification takes less than the period: in a call-free run of >= 7 refreshes of one stream during which the subscriber's connection took h (40-60 % of the announced timeout, timeouts <= 2 s) for every notification, a stream that keeps its schedule shows gaps around the period (a late refresh is followed by a short gap), one whose period begins anew after the notification shows period + h in EVERY gap; verdict only if every gap exceeds announced + h/2 and the harness's own sampler timer (period/5) woke up at least half of the nominal times in that window with at most 10% of the wake-ups more than min(50 ms, timeout/4) late - otherwise inconclusive. Wall-clock gaps are used here because the clause is about time; the harness timer in the same scheduler is the reference",
 			"a second entity for which only AddFunctionType(heartbeat) was ever called is running by the statement's own terms; that calls on entity [1] leave it running and refreshing is 'an entity's heartbeat ... while running ... refreshed periodically' applied to it. For a nested entity [1,1] nothing is judged after RemoveEntity([1]): whether removing an entity ends the heartbeats of its sub-entities is not decided by the statement. Gaps in the second entity's counter sequence are not judged (only 'strictly increasing')",
 			"'notified to the subscribers of the device-diagnosis feature' names the feature: addressSource must be the DeviceDiagnosis feature of the entity whose stream wrote the notify, addressDestination the client feature subscribed to exactly that feature; a peer that subscribes while the heartbeat runs is a subscriber from the moment its subscription request returned: refreshes built after that (same-goroutine successor of a notify whose write to the first subscriber completed later, or a stream goroutine that entered later) must reach it, up to the first RemoveEntity call",
+			"'carrying a strictly increasing counter ... notified to the subscribers' is judged as a subscriber gets it: a notification whose write to the connection is complete (logged rig.Seq when the writer is about to return) after the write of a notification of the same feature with a HIGHER counter was complete reached the subscriber after it (counter/not-strictly-increasing-in-order-of-completion); this takes two writes that overlap on one connection, i.e. two goroutines that refresh and notify one entity's heartbeat at the same time (the in-flight refresh of a stopped stream and the stream started afterwards). Overlapping writes as such are only counted",
+			"'the subscribers of the device-diagnosis feature' are told apart by their connection (SKI), not by the address of their client feature: two remote devices that announce the same device address and numbering (clones, or devices whose address is not known) and whose subscription requests were both answered with error number 0 are two subscribers, each gets every refresh",
 			"'data is refreshed ... every refresh is notified': FeatureLocal.SetData stores before it notifies, so while a notify is inside the writer DataCopy of its source feature shows a counter >= the notified one (read by the writer goroutine itself: causal); 'the data then stays unchanged' is judged on the JSON rendering of the whole heartbeat data (same counter => same content)",
 			"entity [0]: whether the DeviceInformation entity has a heartbeat is not decided; AddFunctionType(heartbeat) on its DeviceDiagnosis server feature and every call the API offers there must not panic (signature entity0/add-heartbeat-function-panics: on the current tree EntityLocal.HeartbeatManager() is nil for entity [0] and FeatureLocal.AddFunctionType dereferences it)",
 			"a stopped stream may complete the one refresh that was in flight when Stop/RemoveEntity returned; a further refresh on the same stream goroutine provably started after the return and is judged",
@@ -183,6 +191,17 @@ type c16Tap struct {
 	// data reads the heartbeat counter in the function data of the feature with address src (set before the
 	// connection exists, never changed afterwards)
 	data func(src string) (ctr uint64, has, known bool)
+	// results: error number of every result datagram written to this connection, by the request counter it refers to
+	// (how the peer itself learns that its subscription request was accepted)
+	results map[model.MsgCounterType]uint
+}
+
+// resultOf: the error number of the result datagram that answered request mc on this connection (ok: one arrived).
+func (t *c16Tap) resultOf(mc model.MsgCounterType) (errno uint, ok bool) {
+	t.mu.Lock()
+	defer t.mu.Unlock()
+	errno, ok = t.results[mc]
+	return
 }
 
 // c16ParseDuration parses an xs:duration restricted to days, hours, minutes and (fractional) seconds - PnDTnHnMn.nS -
@@ -247,6 +266,16 @@ func (t *c16Tap) WriteShipMessageWithPayload(m []byte) {
 	if hb == nil || cl == nil || *cl != model.CmdClassifierTypeNotify {
 		t.mu.Lock()
 		t.other++
+		if rd, ref := d.Datagram.Payload.Cmd[0].ResultData, d.Datagram.Header.MsgCounterReference; rd != nil && ref != nil && cl != nil && *cl == model.CmdClassifierTypeResult {
+			if t.results == nil {
+				t.results = map[model.MsgCounterType]uint{}
+			}
+			no := uint(0)
+			if rd.ErrorNumber != nil {
+				no = uint(*rd.ErrorNumber)
+			}
+			t.results[*ref] = no
+		}
 		t.mu.Unlock()
 		return
 	}
@@ -408,6 +437,11 @@ type c16Opt struct {
 	twin                []uint
 	twinTimeout         time.Duration
 	late                bool
+	// lateClone: the peer that subscribes later announces the SAME device address as the observed peer (and numbers its
+	// entities and features in the same way): the client feature addresses of the two subscribers are identical, they
+	// differ in nothing but the SKI of their connection (a cloned / mis-configured device, or peers whose device address
+	// is not known). They are two subscribers all the same.
+	lateClone bool
 }
 
 func newC16Env(c *rig.Ctx, timeout time.Duration, withPeer bool) *c16Env {
@@ -528,7 +562,11 @@ func newC16EnvOpt(c *rig.Ctx, timeout time.Duration, opt c16Opt) *c16Env {
 	if withPeer && opt.late {
 		// connected and announced now, subscribes later
 		p := &rig.Peer{Ski: c.Tag() + "-ski1", Addr: "dev1", Tap: &rig.Tap{}, W: e.w, Ctr: 2000}
-		l := &c16Late{tap: &c16Tap{entered: make(chan struct{}, 1), data: e.dataOf}, peer: p, dst: rkKey(rig.FA("dev1", []uint{1}, 1))}
+		if opt.lateClone {
+			p.Addr = "dev0" // the device address the observed peer announces, too
+			c.Count("cases_whose_subscribers_have_identical_client_feature_addresses", 1)
+		}
+		l := &c16Late{tap: &c16Tap{entered: make(chan struct{}, 1), data: e.dataOf}, peer: p, dst: rkKey(rig.FA(p.Addr, []uint{1}, 1))}
 		e.w.Local.SetupRemoteDevice(p.Ski, l.tap)
 		p.RD = e.w.Local.RemoteDeviceForSki(p.Ski)
 		e.w.Peers = append(e.w.Peers, p)
@@ -693,12 +731,14 @@ func (e *c16Env) lateSubscribe() {
 	if l == nil || l.subRet != 0 {
 		return
 	}
-	before := len(e.w.Local.SubscriptionManager().SubscriptionsOnFeature(*e.dd.Address()))
+	// accepted = what the peer itself is told: the result datagram that answers its request carries error number 0
+	// (not: what the registry lists afterwards - the list of subscribers is what the refreshes are judged against)
 	call := rig.Seq()
-	l.peer.Subscribe(rig.FA(l.peer.Addr, []uint{1}, 1), e.dd.Address(), model.FeatureTypeTypeDeviceDiagnosis)
+	mc := l.peer.Subscribe(rig.FA(l.peer.Addr, []uint{1}, 1), e.dd.Address(), model.FeatureTypeTypeDeviceDiagnosis)
 	ret := rig.Seq()
-	if n := len(e.w.Local.SubscriptionManager().SubscriptionsOnFeature(*e.dd.Address())); n != before+1 {
-		e.c.Inconclusive("the late subscription to the DeviceDiagnosis feature was not accepted (%d subscriptions before, %d now)", before, n)
+	var errno uint
+	if !rig.WaitFor(10*time.Second, func() bool { var ok bool; errno, ok = l.tap.resultOf(mc); return ok }) || errno != 0 {
+		e.c.Inconclusive("the late subscription to the DeviceDiagnosis feature was not accepted (result datagram for request %d: error number %d)", mc, errno)
 		return
 	}
 	e.mu.Lock()
@@ -1083,6 +1123,13 @@ func (e *c16Env) finish() {
 	e.judgeAddressing()
 	e.judgeTwin()
 	e.judgeLate()
+	e.judgeCompletionOrder("entity [1] / observed subscriber", ns)
+	if e.tw != nil {
+		e.judgeCompletionOrder("second entity / observed subscriber", e.of(e.tw.src))
+	}
+	if e.late != nil {
+		e.judgeCompletionOrder("entity [1] / subscriber that subscribed later", e.late.tap.notifies())
+	}
 	var prev *c16Notify
 	lastAtByG := map[int64]time.Time{}
 	lastDoneByG := map[int64]c16Notify{}
@@ -1491,6 +1538,42 @@ func (e *c16Env) judgeTwin() {
 	c.Count("second_entity_intact_after_a_checkpoint_of_entity_1", int64(judged))
 }
 
+// judgeCompletionOrder: "carrying a strictly increasing counter ... notified to the subscribers", as the subscriber gets
+// it: the order in which the writes of the notifications to ONE connection are COMPLETE (rig.Seq when the writer is about
+// to return), not only the order in which they were handed to it. A notification whose write is complete after that of a
+// notification with a higher counter of the same feature reached the subscriber after it: the counters it receives are
+// not increasing. That takes two writes of one entity's heartbeat that overlap on the connection (logged: the later one
+// entered before the earlier one had returned) - a refresh still in flight inside a slow connection while another
+// goroutine (a restarted stream, an AddFunctionType) already refreshes and notifies: two streams feed the subscriber at
+// the same time. Decided on logged order only; overlapping writes as such are only counted.
+func (e *c16Env) judgeCompletionOrder(who string, ns []c16Notify) {
+	c := e.c
+	byDone := append([]c16Notify(nil), ns...)
+	sort.SliceStable(byDone, func(i, j int) bool { return byDone[i].Done < byDone[j].Done })
+	for i := 1; i < len(ns); i++ { // ns is in order of entry into the writer
+		if ns[i].Seq < ns[i-1].Done {
+			c.Count("notification_writes_overlapping_on_one_connection", 1)
+		}
+	}
+	var hi *c16Notify // the highest counter among the writes completed so far
+	for i := range byDone {
+		n := &byDone[i]
+		if !n.HasCtr {
+			continue
+		}
+		c.Events(1)
+		if hi != nil && n.Counter < hi.Counter {
+			c.Violate("counter/not-strictly-increasing-in-order-of-completion", "%s: the write of the heartbeat notify with counter %d (g%d, in the writer seq %d-%d, held by the connection for %s) was complete AFTER the write of the notify with counter %d (g%d, seq %d-%d) was: the subscriber gets %d after %d; the two writes overlapped on the connection, i.e. two goroutines refreshed and notified this heartbeat at the same time\n history: %s",
+				who, n.Counter, n.Goid, n.Seq, n.Done, n.Held, hi.Counter, hi.Goid, hi.Seq, hi.Done, n.Counter, hi.Counter, e.history())
+			return
+		}
+		if hi == nil || n.Counter > hi.Counter {
+			hi = n
+		}
+	}
+	c.Count("notification_sequences_judged_in_order_of_completion", 1)
+}
+
 // judgeLate: the peer that subscribed while the heartbeat was running receives every later refresh. A refresh is
 // provably later if it was built after the subscription request had returned: it follows, on the same stream
 // goroutine, a notify whose write to the first subscriber was complete after that moment, or its stream goroutine
@@ -1564,6 +1647,9 @@ func c16Seq(c *rig.Ctx) {
 	}
 	opt.twinTimeout = c16TwinTimeouts[(c.Index/3+row)%len(c16TwinTimeouts)]
 	opt.late = flavor == "generated" && (c.Index+row)%2 == 0
+	// in every second of these cases the peer that subscribes later announces the device address of the observed peer:
+	// two subscribers (two connections, two SKIs) whose client feature addresses are identical
+	opt.lateClone = opt.late && ((c.Index+row)/2)%2 == 0
 	// every second row reaches the heartbeat manager through the entity at every call instead of keeping it
 	opt.perCall = row%2 == 1
 	e := newC16EnvOpt(c, timeout, opt)
@@ -2222,6 +2308,7 @@ func c16SlowTap(c *rig.Ctx) {
 			e.call("start", "main")
 			s := rig.Seq()
 			v0, v0ok := e.counter()
+			c.Count("restarts_while_a_refresh_is_held_in_the_writer", 1)
 			e.checkpointRunning("start-during-slow-refresh", s, v0, v0ok, true, 4)
 			continue
 		}
